@@ -1,5 +1,7 @@
 import RPVerif.Lemmas.Exec
 import RPVerif.Model.Noop
+import RPVerif.Lemmas.WatchQueue
+import RPVerif.Lemmas.Timeout
 
 /-!
 # C07 — The executor finishes each task exactly once
@@ -398,5 +400,34 @@ theorem C07_noop_complete (ops : List Op) (due : List Nat) (hn : (accepted ops).
     omega
 
 end noop
+
+/-! ## never left behind: the watcher's intake and the run-time limit -/
+
+open RPVerif.WatchQueue in
+/-- **no launched task is lost between the intake and the watcher**: over every history of bursts of launched
+    tasks and watcher passes, with any bulk limit per pass and whatever the processes do, each task is in
+    exactly as many places - still queued, on the watch list, or collected - as it was put on the queue -/
+theorem C07_watch_queue_conserves (limit : Nat) (ops : List Op) (t : Nat) :
+    cnt (run limit {} ops) t = (enqueued ops).count t := by
+  rw [run_cnt]; simp [cnt]
+
+open RPVerif.WatchQueue in
+/-- the queue is drained `limit` tasks per pass: after `k` passes without new arrivals at most
+    `|queue| - k * limit` launched tasks have not yet been looked at -/
+theorem C07_watch_queue_drains (limit : Nat) (w : WQ) (exs : List (List Nat)) :
+    (run limit w (exs.map Op.pass)).queue.length = w.queue.length - exs.length * limit :=
+  drain limit w exs
+
+open RPVerif.Timeout in
+/-- **a run-time limit that has passed is enforced at the next pass of the timeout watcher**: whatever entry
+    the watcher holds for a task after taking in what was handed to it - if its cancel time is a real
+    deadline and lies in the past, `cancel_task` is called for that task in this pass -/
+theorem C07_deadline_enforced (w : TW) (now u ct : Nat) (hm : (u, ct) ∈ w.pending.foldl merge w.table)
+    (h0 : ct ≠ 0) (hlt : ct < now) : u ∈ (pass w now).2 :=
+  pass_enforces w now u ct hm h0 hlt
+
+/-- test: 5 tasks launched in one burst, bulk limit 4: the fifth is looked at in the second pass -/
+example : (WatchQueue.run 4 {} [.enq [0, 1, 2, 3, 4], .pass []]).watching = [0, 1, 2, 3]
+    ∧ (WatchQueue.run 4 {} [.enq [0, 1, 2, 3, 4], .pass [], .pass []]).watching = [0, 1, 2, 3, 4] := by decide
 
 end RPVerif.C07
